@@ -37,6 +37,42 @@ class _Probe:
             getattr(self.ctx, name)(*a, **k)
 
 
+def _delegated_tests(f: Func, pm) -> bool:
+    """Does some raise of f depend on what a function that the pinned tree does not have reported (a helper that gathers the
+    tests and returns a message / a flag)?  Then the documented condition may be enforced there."""
+    from .inline import load_known
+    known = load_known() or {}
+    names = set()
+    for v in known.values():
+        for q in v:
+            names.add(q.split(".")[-1])
+    if not names:
+        return False
+
+    def new_call(e):
+        for n in ast.walk(e):
+            if isinstance(n, ast.Call):
+                nm = n.func.attr if isinstance(n.func, ast.Attribute) else (n.func.id if isinstance(n.func, ast.Name) else None)
+                if nm and nm.startswith("_") and nm not in names and not nm.startswith("__"):
+                    return True
+        return False
+    for r in astx.raises_in(f.node):
+        for t, _ in astx.path_condition(f.node, r, pm, carried=False):
+            if new_call(t):
+                return True
+            for n in ast.walk(t):
+                if isinstance(n, ast.Name):
+                    dv = astx.unique_def(f.node, n.id)
+                    if dv is not None and new_call(dv):
+                        return True
+                    # ... or on a verdict variable that several branches set (message / None, True / False): the tests sit in
+                    # the branches that set it, not in the guard of the raise
+                    ds = [d for _, d in astx.defs_of(f.node, n.id) if d is not None]
+                    if len(ds) >= 2 and all(isinstance(d, (ast.Constant, ast.JoinedStr)) for d in ds):
+                        return True
+    return False
+
+
 def raise_guards(f: Func, N: Normalizer, pm=None):
     pm = pm or astx.parents(f.node)
     out = []
@@ -85,7 +121,11 @@ def obligation(ctx, f: Func, label: str, spec_src: str, exc: str, *, rename=None
     if not mine:
         # (in a function reorganised beyond a small edit - the test moved into a helper that reports what is wrong, say - the
         # rule no longer knows where to look: it cannot decide; a dropped or weakened guard is a small edit and is reported)
-        ctx.violated_shape(f, f.node, label, f"no raise in {f.short} is conditioned on `{bool_key(spec)}`: the documented precondition is not enforced")
+        msg = f"no raise in {f.short} is conditioned on `{bool_key(spec)}`: the documented precondition is not enforced"
+        if _delegated_tests(f, pm):
+            ctx.violated_shape(f, f.node, label, msg)
+        else:
+            ctx.violated(f, f.node, label, msg)
         return False
     wrong_type = [r for r, _ in mine if astx.raise_type(r) != exc]
     first_line = min(r.lineno for r, _ in mine)
